@@ -137,33 +137,37 @@ theorem sum_eq_zero_iff_forall (l : List Nat) : l.sum = 0 ↔ ∀ (t : Nat) x, l
 
 /-! ## Thread-local control -/
 
-theorem localRet_armCode (arm : List Simple) (r : Ret) (h : noStoreArm arm = true) :
+theorem localRet_armCode (arm : List Simple) (r : Ret) (h : fenceArm arm = true) :
     localRet (armCode arm r) = some r := by
   induction arm with
   | nil => simp [armCode, localRet]
   | cons s arm ih =>
     cases s with
     | fence o =>
-      have h' : noStoreArm arm = true := by
-        simpa [noStoreArm, Simple.isStore] using h
+      have h' : fenceArm arm = true := by
+        simpa [fenceArm, Simple.isFence] using h
       simpa [armCode, localRet] using ih h'
-    | storeOldPlus k o => simp [noStoreArm, Simple.isStore] at h
-    | storeOldMinus k o => simp [noStoreArm, Simple.isStore] at h
+    | storeOldPlus k o => simp [fenceArm, Simple.isFence] at h
+    | storeOldMinus k o => simp [fenceArm, Simple.isFence] at h
+    | rmwSub n o => simp [fenceArm, Simple.isFence] at h
+    | rmwAdd n o => simp [fenceArm, Simple.isFence] at h
 
-theorem localAcq_armCode (arm : List Simple) (r : Ret) (h : noStoreArm arm = true) :
+theorem localAcq_armCode (arm : List Simple) (r : Ret) (h : fenceArm arm = true) :
     localAcq (armCode arm r) = acqFenceArm arm := by
   induction arm with
   | nil => simp [armCode, localAcq, acqFenceArm]
   | cons s arm ih =>
     cases s with
     | fence o =>
-      have h' : noStoreArm arm = true := by
-        simpa [noStoreArm, Simple.isStore] using h
+      have h' : fenceArm arm = true := by
+        simpa [fenceArm, Simple.isFence] using h
       have := ih h'
       simp [armCode, localAcq, acqFenceArm] at this ⊢
       rw [this]
-    | storeOldPlus k o => simp [noStoreArm, Simple.isStore] at h
-    | storeOldMinus k o => simp [noStoreArm, Simple.isStore] at h
+    | storeOldPlus k o => simp [fenceArm, Simple.isFence] at h
+    | storeOldMinus k o => simp [fenceArm, Simple.isFence] at h
+    | rmwSub n o => simp [fenceArm, Simple.isFence] at h
+    | rmwAdd n o => simp [fenceArm, Simple.isFence] at h
 
 /-- Code that is local (only fences before a `return`) starts with the `return` or a fence. -/
 theorem localRet_cases {code : List AStep} {r : Ret} (h : localRet code = some r) :
